@@ -137,7 +137,11 @@ Bytes gen_point(int &cls) {
         for (int bit = lo; bit < lo + radix && bit < 255; bit++) { if (mode == 0) out[bit / 8] &= (uint8_t) ~(1u << (bit % 8)); else if (mode == 1 && bit == lo) out[bit / 8] &= (uint8_t) ~(1u << (bit % 8)); }
         break; }
     }
-    if (cls == 8) { /* keep */ }
+    if (cls == 8) {   // the first 29..31 bytes of a low-order encoding, arbitrary bytes after them: valid points that a blocklist comparison
+                      // which stops early (or masks the wrong byte) would take for low-order ones
+        int keep = *rc::gen::element(30, 31, 29, 30);
+        for (int i = keep; i < 32; i++) out[(size_t) i] = *rc::gen::arbitrary<uint8_t>();
+    }
     if (*rc::gen::inRange(0, 3) == 0) out[31] ^= 0x80;     // bit 255 must be ignored
     return out;
 }
